@@ -30,27 +30,27 @@ def gen_name(rng):
             return s
 
 
-def gen_common(rng):
+def gen_common(rng, dev_id=None):
     ip = bytes(rng.choice([0, 1, 10, 127, 192, 255, rng.randrange(256)]) for _ in range(4))
-    return f"{rng.randbytes(3).hex()} {rng.randrange(256)} {ip.hex()} {rng.randbytes(6).hex()} {C.ut(gen_name(rng))}"
+    return f"{dev_id or rng.randbytes(3).hex()} {rng.randrange(256)} {ip.hex()} {rng.randbytes(6).hex()} {C.ut(gen_name(rng))}"
 
 
-def gen_device(rng, family=None):
+def gen_device(rng, family=None, dev_id=None):
     family = family or rng.choice(["t1", "t1", "shutter", "thermo"])
     if family == "t1":
         tn = rng.choice(list(T1))
         code, heater = T1[tn]
         def t():
             return rng.choice([0, 1, 59, 3600, 86399, rng.randrange(86400)])
-        fields = f"{tn} {code} {heater} {rng.randrange(2)} {rng.choice([0, 1, 255, 256, 2600, 65535, rng.randrange(65536)])} {t()} {t()} {gen_common(rng)}"
+        fields = f"{tn} {code} {heater} {rng.randrange(2)} {rng.choice([0, 1, 255, 256, 2600, 65535, rng.randrange(65536)])} {t()} {t()} {gen_common(rng, dev_id)}"
     elif family == "shutter":
         tn = rng.choice(list(SH))
-        fields = f"{tn} {SH[tn]} {rng.choice([0, 1, 50, 99, 100, rng.randrange(101)])} {rng.randrange(3)} {gen_common(rng)}"
+        fields = f"{tn} {SH[tn]} {rng.choice([0, 1, 50, 99, 100, rng.randrange(101)])} {rng.randrange(3)} {gen_common(rng, dev_id)}"
     else:
         tn = "BREEZE"
         rid = bytes(rng.choice(b"ABCDEFGHIJKLMNOPQRSTUVWXYZ0123456789") for _ in range(8)).hex()
         fields = (f"{tn} {TH[tn]} {rng.randrange(2)} {rng.randrange(1, 6)} {rng.randrange(4)} {rng.randrange(2)} "
-                  f"{rng.choice([0, 1, 245, 256, 65535, rng.randrange(65536)])} {rng.choice([0, 16, 30, 255, rng.randrange(256)])} {rid} {gen_common(rng)}")
+                  f"{rng.choice([0, 1, 245, 256, 65535, rng.randrange(65536)])} {rng.choice([0, 16, 30, 255, rng.randrange(256)])} {rid} {gen_common(rng, dev_id)}")
     bg = rng.randbytes(LEN[family]).hex() if rng.random() < 0.7 else "00" * LEN[family]
     return {"family": family, "bg": bg, "fields": fields}
 
